@@ -174,6 +174,7 @@ impl<'a> Minimiser<'a> {
         let max_secs: u64 = std::env::var("VERIF_MIN_SECS").ok().and_then(|v| v.parse().ok()).unwrap_or(300);
         if self.budgeted && (self.tests >= max_tests || self.started.elapsed().as_secs() >= max_secs) {
             self.exhausted = true;
+            coord::DDMIN_STOP.store(true, std::sync::atomic::Ordering::SeqCst);
             return Ok(false);
         }
         self.tests += 1;
@@ -230,6 +231,7 @@ pub fn minimise_and_report(p: &HistProp, seed: u64, tier: Tier, block_first: u64
     let class = vio["class"].as_str().ok_or("violation without class")?.to_string();
     let detail = vio["detail"].as_str().unwrap_or("").to_string();
     let failing = Scenario::from_json(&vio["scenario"])?;
+    coord::DDMIN_STOP.store(false, std::sync::atomic::Ordering::SeqCst);
     let mut m = Minimiser { p, class: class.clone(), seed, run_index, scratch: coord::scratch_dir(), tests: 0, started: std::time::Instant::now(), budgeted: false, exhausted: false };
 
     // 1. does the failing run fail on its own in a fresh process?
@@ -292,7 +294,7 @@ pub fn minimise_and_report(p: &HistProp, seed: u64, tier: Tier, block_first: u64
     }
     // one-at-a-time removal pass (ddmin's result is 1-minimal only w.r.t. its chunking)
     let mut i = 0;
-    while i < ops.len() && ops.len() > 1 {
+    while i < ops.len() && ops.len() > 1 && !m.exhausted {
         let mut cand = ops.clone();
         cand.remove(i);
         if m.fails(&build(&prefix, &cand, &failing))? {
@@ -303,9 +305,12 @@ pub fn minimise_and_report(p: &HistProp, seed: u64, tier: Tier, block_first: u64
     }
     // 3. simplify what is left
     let mut changed = true;
-    while changed {
+    while changed && !m.exhausted {
         changed = false;
         for i in 0..ops.len() {
+            if m.exhausted {
+                break;
+            }
             for alt in simplify_op(&ops[i]) {
                 let mut cand = ops.clone();
                 cand[i] = alt;
@@ -319,6 +324,9 @@ pub fn minimise_and_report(p: &HistProp, seed: u64, tier: Tier, block_first: u64
     }
     // 4. same for the prefix runs' operations (rarely needed)
     for k in 0..prefix.len() {
+        if m.exhausted {
+            break;
+        }
         let base = prefix[k].clone();
         let mut err = None;
         let kept = coord::ddmin(&base.ops, |cand| {
@@ -343,7 +351,7 @@ pub fn minimise_and_report(p: &HistProp, seed: u64, tier: Tier, block_first: u64
     for si in 0..shrunk.subjects.len() {
         let used = shrunk.ops.iter().any(|o| matches!(o, Op::Parse { subj } | Op::Compile { subj, .. } | Op::CompileQuiet { subj, .. } if *subj == si))
             || shrunk.ops.iter().any(|o| matches!(o, Op::Compare { a, b } if *a == si || *b == si));
-        if !used {
+        if !used || m.exhausted {
             continue;
         }
         let mut progress = true;
@@ -363,6 +371,9 @@ pub fn minimise_and_report(p: &HistProp, seed: u64, tier: Tier, block_first: u64
                         cand.subjects[si] = cand_text;
                         let mut all = prefix.clone();
                         all.push(cand.clone());
+                        if m.exhausted {
+                            break 'outer;
+                        }
                         if m.fails(&all)? {
                             shrunk = cand;
                             progress = true;
@@ -383,6 +394,9 @@ pub fn minimise_and_report(p: &HistProp, seed: u64, tier: Tier, block_first: u64
         let used = shrunk.ops.iter().any(|o| matches!(o, Op::Render { path, .. } if *path == pi));
         if !used {
             continue;
+        }
+        if m.exhausted {
+            break;
         }
         let chars: Vec<char> = shrunk.paths[pi].chars().collect();
         if chars.len() < 2 {
@@ -650,10 +664,12 @@ fn cross_process_pass(p: &HistProp, seed: u64, tier: Tier, n: u64, same_seed_onl
     let cand_file = scratch.join(format!("{}-xproc-min-{}.json", p.id, std::process::id()));
     let mut err = None;
     // best effort under a budget, as in minimise_and_report
+    coord::DDMIN_STOP.store(false, std::sync::atomic::Ordering::SeqCst);
     let (min_started, mut min_tests) = (std::time::Instant::now(), 0u64);
     let mut differs = |ops: &[Op]| -> bool {
         min_tests += 1;
         if min_tests > 300 || min_started.elapsed().as_secs() >= 300 {
+            coord::DDMIN_STOP.store(true, std::sync::atomic::Ordering::SeqCst);
             return false;
         }
         let mut s = sc.clone();
